@@ -926,14 +926,7 @@ func (s *LexSpec) HarnessGo(pkg string) string {
 	sb.WriteString("\t},\n}\n\n")
 	sb.WriteString("var hTokNames = map[int]string{EOF: \"EOF\", ERROR: \"ERROR\"")
 	for _, t := range s.Tokens {
-		// a token defined by one literal is shown by that literal
-		show := t
-		for _, r := range s.Rules {
-			if r.Kind == "token" && r.Name == t && r.Re.Lit != "" {
-				show = r.Re.Lit
-			}
-		}
-		fmt.Fprintf(&sb, ", %s: %q", t, show)
+		fmt.Fprintf(&sb, ", %s: %q", t, t)
 	}
 	sb.WriteString("}\n\nvar hTokOrder = []int{")
 	for _, t := range s.Tokens {
@@ -1032,6 +1025,92 @@ func H_Account() {
 	msg := ref.CheckLex(hLexSpec, input, sm.log, toks, ended, true)
 	vrt.Observe("lex", msg)
 	vrt.Assert(msg == "", "accounting")
+}
+
+// H_TokNumbers (C19): EOF = 0, ERROR = 1, others dense in declaration order.
+func H_TokNumbers() {
+	vrt.Assert(EOF == 0, "eof-is-0")
+	vrt.Assert(ERROR == 1, "error-is-1")
+	for i, k := range hTokOrder {
+		vrt.Assert(k == i+2, "dense-declaration-order")
+	}
+	vrt.Reach("numbers")
+}
+
+// H_PushRuneUnit (C10, C02): two steps of the generated state machine on an
+// arbitrary well-formed row shared by states 0 and 1: k sorted disjoint ranges
+// with symbolic bounds and targets, a symbolic non-greedy flag, one accept
+// action.
+func H_PushRuneUnit() {
+	k := vrt.Param("ranges", 2)
+	// table: [row of state 0][row of state 1][count, flags, gotoN, (B,E,T)*k, 3, TOKEN]
+	n := 2 + 3*k + 2
+	table := make([]uint32, 2+1+n)
+	table[0] = 2
+	table[1] = 2
+	table[2] = uint32(n)
+	flag := vrt.Bool("ng")
+	table[3] = 0
+	if flag {
+		table[3] = 1
+	}
+	table[4] = uint32(k)
+	bs := make([]rune, k)
+	es := make([]rune, k)
+	ts := make([]uint32, k)
+	for j := 0; j < k; j++ {
+		bs[j] = vrt.Rune(vrt.Name("B", j))
+		es[j] = vrt.Rune(vrt.Name("E", j))
+		ts[j] = vrt.Uint32(vrt.Name("T", j))
+		vrt.Assume(vrt.And(0 <= bs[j], vrt.And(bs[j] <= es[j], es[j] <= 0x10FFFF)))
+		if j > 0 {
+			vrt.Assume(es[j-1] < bs[j])
+		}
+		vrt.Assume(ts[j] <= 1)
+		table[5+3*j] = uint32(bs[j])
+		table[6+3*j] = uint32(es[j])
+		table[7+3*j] = ts[j]
+	}
+	table[5+3*k] = 3
+	tok := vrt.Uint32("tok")
+	vrt.Assume(tok < 1000)
+	table[6+3*k] = tok
+	inRange := func(r rune) (bool, uint32) {
+		in := false
+		target := uint32(0)
+		for j := k - 1; j >= 0; j-- {
+			hit := vrt.And(bs[j] <= r, r <= es[j])
+			in = vrt.Or(in, hit)
+			if hit {
+				target = ts[j]
+			}
+		}
+		return in, target
+	}
+	sm := &_LexerStateMachine{mode: table}
+	for step := 0; step < 2; step++ {
+		r := vrt.Rune(vrt.Name("r", step))
+		vrt.Assume(vrt.And(-1 <= r, r <= 0x10FFFF))
+		got := sm.PushRune(r)
+		in, target := inRange(r)
+		vrt.Assert(vrt.Iff(got == 0, vrt.And(in, vrt.Not(flag))), "consume-iff-in-a-range")
+		if got == 0 {
+			vrt.Reach("consume")
+			vrt.Assert(uint32(sm.state) == target, "target-of-the-range")
+			continue
+		}
+		if step == 0 {
+			// nothing consumed yet: a rule never matches the empty string
+			vrt.Assert(vrt.Iff(got == 4, r == -1), "eof-only-on-end-of-input")
+			vrt.Assert(got == 4 || got == -1, "no-empty-match")
+		} else {
+			vrt.Reach("accept")
+			vrt.Assert(got == 1, "accept-after-consuming")
+			vrt.Assert(sm.Token() == int(tok), "accepted-token")
+			vrt.Assert(sm.state == 0, "back-to-start")
+		}
+		return
+	}
 }
 
 // H_TokString (C19): _TokenToString over a symbolic int.
